@@ -1049,6 +1049,16 @@ def oracle_reorder(c, rng_seed=0):
 
 
 def oracle_convert(c, rng_seed=0):
+    try:
+        return _oracle_convert(c, rng_seed)
+    except Exception as e:  # noqa: BLE001 - the routine must not raise on a valid b / conv
+        out = []
+        _fail(out, "cbconvert-raises-" + type(e).__name__, "cbconvert raises on a valid boundary vector",
+              {"kind": "cbconvert", "lt": c["lt"], "b": list(map(int, c["b"])), "conv": c["conv"]}, repr(e)[:200], "converted matrices")
+        return out
+
+
+def _oracle_convert(c, rng_seed=0):
     from pyyeti import cb
     import scipy.linalg as la
 
@@ -1129,6 +1139,11 @@ def oracle_cbtf(seed):
         bset = rng.permutation(bset)
     fmax = math.sqrt(np.abs(red["w"]).max()) / (2 * math.pi) if nq else 10.0
     freq = np.sort(rng.uniform(0.02 * fmax, 1.5 * fmax, int(rng.integers(1, 12))))
+    zero_hz = bool(np.random.default_rng([int(x) for x in np.atleast_1d(seed)] + [991]).random() < 0.35)
+    if zero_hz:
+        # "for any frequency vector": exactly 0 Hz is legitimate (np.arange(0, 50, .5)); there the boundary displacement and
+        # velocity are zero by the routine's own convention and the enforced acceleration and the force are the static limit
+        freq = np.concatenate([[0.0], freq])
     if rng.random() < 0.5:
         a = rng.standard_normal(nb)
         a_full = np.outer(a, np.ones(len(freq)))
@@ -1162,9 +1177,15 @@ def oracle_cbtf(seed):
         res = Mi @ acc + Bi @ v + Ki @ d - rhs
         sc = max(np.abs(Mi @ acc).max(), np.abs(Ki @ d).max(), np.abs(Bi @ v).max(), 1e-300)
         worst = max(worst, np.abs(res).max() / sc,
-                    np.abs(acc[bset] - a_full[:, j]).max() / max(np.abs(a_full[:, j]).max(), 1e-300),
-                    np.abs(v - 1j * w * d).max() / max(np.abs(v).max(), 1e-300),
-                    np.abs(acc + w * w * d).max() / max(np.abs(acc).max(), 1e-300))
+                    np.abs(acc[bset] - a_full[:, j]).max() / max(np.abs(a_full[:, j]).max(), 1e-300))
+        if w == 0.0:
+            # a = -W^2 d cannot hold on the boundary at 0 Hz (a is enforced, d is finite): d_b = v_b = 0 there, and
+            # the modal DOF take their static values
+            worst = max(worst, np.abs(d[bset]).max() / max(np.abs(d).max(), 1e-300), np.abs(v).max(),
+                        np.abs(acc[qset]).max() / max(np.abs(acc).max(), 1e-300) if nq else 0.0)
+        else:
+            worst = max(worst, np.abs(v - 1j * w * d).max() / max(np.abs(v).max(), 1e-300),
+                        np.abs(acc + w * w * d).max() / max(np.abs(acc).max(), 1e-300))
     if not worst <= 1e-7:
         _fail(out, fam, "cbtf response does not satisfy M a + B v + K d = [F_b; 0] with the enforced boundary acceleration",
               inp, {"worst_relative_residual": worst}, "<= 1e-7")
